@@ -16,9 +16,10 @@ RULE = ('one evaluation = one seeded single-client history (20-300 API calls inc
         'storage threshold under the virtual clock; every call result, the physical row set after every call (lazy-cull '
         'legality) and the final contents are compared with ModelCache; non-trivial = the history performed at least 10 '
         'calls; distinct = distinct SHA-256 of (configuration, program)')
+RULE += ' ' + "One history in eight runs in a directory whose name holds characters special to URIs, patterns or shells ('#', '?', '%41', blank, quote, ';', '&', 'file:' prefix, non-ASCII), next to a sibling cache named alike up to that character which must stay untouched; one seed in 97 probes a composite key written with one object in two places against an equal key of distinct objects."
 ASSUMPTIONS = ['clock frozen within one operation, advanced between operations (ties expire_time == now are reachable)',
                'size_limit is huge in this check: size eviction is C09']
-PROBES = ('cull_expired', 'page_boundary_crossed', 'reopen', 'identity_pairs')
+PROBES = ('cull_expired', 'page_boundary_crossed', 'reopen', 'identity_pairs', 'odd_directory_name')
 TECHNIQUE = 'deterministic simulation (virtual clock, seeded file names) driving model-based differential checking against an executable reference dictionary'
 LEVEL_TEXT = ('seeded exploration of call histories under a controlled clock; each history is checked call by call against an '
               'executable reference model, with lazy culling validated as legality of the observed removal set. The clock and '
@@ -43,7 +44,11 @@ def gen_case(seed, tier):
     prog = seqcache.gen_prog(rng, n_ops, profile, settings['disk_min_file_size'])
     if settings['cull_limit'] == 0:
         prog = seqcache.add_blocks(rng, prog)      # transact() blocks in which time passes (no lazy culling in these runs)
-    return {'seed': seed, 'cfg': {'settings': settings, 'profile': profile}, 'prog': prog}
+    cfg = {'settings': settings, 'profile': profile}
+    if rng.random() < 0.12:
+        cfg['dirname'] = rng.choice((['job#1', 'job#2'], ['a?mode=ro', 'a?mode=rw'], ['x%41', 'xA'], ['sp ace', 'sp'], ['caf\u00e9', 'cafe'],
+                                     ['c;d', 'c'], ["it's", 'it'], ['a&b', 'a'], ['file:c', 'c']))
+    return {'seed': seed, 'cfg': cfg, 'prog': prog}
 
 
 def run_identity(case):
